@@ -56,6 +56,20 @@ Lemma no_flags_disable : f_disable_op no_flags = false. Proof. reflexivity. Qed.
 Lemma no_flags_strict : f_no_unknown_ops no_flags = false. Proof. reflexivity. Qed.
 Lemma no_flags_canonical : f_canonical_ints no_flags = false. Proof. reflexivity. Qed.
 
+(* the flag sets C01 meets: no flags, and no flags + keccak enabled (inside a guard of extension 1) *)
+Definition plain_flags (f : flagset) : Prop :=
+  f_new_cost_model f = false /\ f_limits f = false /\ f_malachite f = false /\
+  f_disable_op f = false /\ f_no_unknown_ops f = false.
+Lemma pf_ncm f : plain_flags f -> f_new_cost_model f = false. Proof. intros H; apply H. Qed.
+Lemma pf_lim f : plain_flags f -> f_limits f = false. Proof. intros H; apply H. Qed.
+Lemma pf_mal f : plain_flags f -> f_malachite f = false. Proof. intros H; apply H. Qed.
+Lemma pf_dis f : plain_flags f -> f_disable_op f = false. Proof. intros H; apply H. Qed.
+Lemma pf_unk f : plain_flags f -> f_no_unknown_ops f = false. Proof. intros H; apply H. Qed.
+Lemma plain_no_flags : plain_flags no_flags.
+Proof. repeat split. Qed.
+Lemma plain_with_keccak : plain_flags (with_keccak no_flags).
+Proof. repeat split. Qed.
+
 (* argument lists *)
 Lemma items_arg_list t : items t = arg_list t.
 Proof. induction t as [b|a _ r IH]; cbn; [reflexivity|now rewrite IH]. Qed.
